@@ -2,11 +2,13 @@ package sym
 
 import (
 	"fmt"
-	"runtime"
+	"os"
 	"math/big"
+	"runtime"
 	"sort"
 	"strings"
 	"sync"
+	"sync/atomic"
 	"time"
 
 	"golang.org/x/tools/go/ssa"
@@ -37,6 +39,9 @@ type Path struct {
 	// abstraction of expensive operators (see abstractURem): exact definitions, added when a model matters
 	Exact    []*smt.Term
 	uremMemo map[[2]int]*smt.Term
+	// constraint independence: union-find over the atoms (variables and UF applications) of the conjuncts
+	ufParent map[int]int
+	pcAtom   []int // one representative atom per conjunct (-1: no atoms)
 }
 
 // Violation is a failed obligation with a model.
@@ -118,6 +123,111 @@ func (it *Interp) addPC(t *smt.Term) {
 	}
 	p.pcSet[t.ID] = true
 	p.PC = append(p.PC, t)
+	atoms := it.atomsOf(t)
+	rep := -1
+	for _, a := range atoms {
+		if rep < 0 {
+			rep = a
+		} else {
+			p.union(rep, a)
+		}
+	}
+	p.pcAtom = append(p.pcAtom, rep)
+}
+
+func (p *Path) find(x int) int {
+	if p.ufParent == nil {
+		p.ufParent = map[int]int{}
+	}
+	r, ok := p.ufParent[x]
+	if !ok {
+		p.ufParent[x] = x
+		return x
+	}
+	if r == x {
+		return x
+	}
+	root := p.find(r)
+	p.ufParent[x] = root
+	return root
+}
+
+func (p *Path) union(a, b int) {
+	ra, rb := p.find(a), p.find(b)
+	if ra != rb {
+		p.ufParent[ra] = rb
+	}
+}
+
+// atomsOf returns the ids of the variables and UF applications occurring in t (UF arguments are not entered:
+// an application is an atom of its own).
+func (it *Interp) atomsOf(t *smt.Term) []int {
+	if it.atomCache == nil {
+		it.atomCache = map[int][]int{}
+	}
+	if a, ok := it.atomCache[t.ID]; ok {
+		return a
+	}
+	seen := map[int]bool{}
+	var out []int
+	var visit func(x *smt.Term)
+	visited := map[int]bool{}
+	visit = func(x *smt.Term) {
+		if visited[x.ID] {
+			return
+		}
+		visited[x.ID] = true
+		switch x.Op {
+		case smt.OConst:
+			return
+		case smt.OVar, smt.OApp:
+			if !seen[x.ID] {
+				seen[x.ID] = true
+				out = append(out, x.ID)
+			}
+			return
+		}
+		if sub, ok := it.atomCache[x.ID]; ok {
+			for _, a := range sub {
+				if !seen[a] {
+					seen[a] = true
+					out = append(out, a)
+				}
+			}
+			return
+		}
+		for _, a := range x.Args {
+			visit(a)
+		}
+	}
+	visit(t)
+	it.atomCache[t.ID] = out
+	return out
+}
+
+// slice returns the conjuncts of the path condition that share atoms (transitively) with the given terms.
+// Dropping the others over-approximates satisfiability, which is sound for feasibility (more paths) and for
+// proving obligations (unsat of a subset implies unsat of the whole); a sat answer for an obligation is
+// re-decided on the full path condition by the caller.
+func (it *Interp) slice(ts ...*smt.Term) []*smt.Term {
+	p := it.P
+	if it.Cfg.NoSlice {
+		return append([]*smt.Term{}, p.PC...)
+	}
+	roots := map[int]bool{}
+	for _, t := range ts {
+		for _, a := range it.atomsOf(t) {
+			roots[p.find(a)] = true
+		}
+	}
+	var out []*smt.Term
+	for i, c := range p.PC {
+		a := p.pcAtom[i]
+		if a < 0 || roots[p.find(a)] {
+			out = append(out, c)
+		}
+	}
+	return out
 }
 
 func (it *Interp) feasible(c *smt.Term) smt.Result {
@@ -134,8 +244,12 @@ func (it *Interp) feasible(c *smt.Term) smt.Result {
 	if n := it.C.Not(c); p.pcSet[n.ID] {
 		return smt.Unsat
 	}
-	as := append(append([]*smt.Term{}, p.PC...), c)
+	as := append(it.slice(c), c)
+	t0 := time.Now()
 	r, err := it.S.Check(as, it.Cfg.FeasTimeoutMs)
+	if it.Cfg.Verbose > 0 && time.Since(t0) > time.Second {
+		fmt.Fprintf(os.Stderr, "slow feasibility query %.1fs => %v slice=%d/%d at %s\n   cond: %s\n", time.Since(t0).Seconds(), r, len(as)-1, len(p.PC), it.where(), it.C.String(c))
+	}
 	if err != nil {
 		it.jr.Inconclusive = append(it.jr.Inconclusive, "solver: "+err.Error())
 		return smt.Unknown
@@ -144,6 +258,50 @@ func (it *Interp) feasible(c *smt.Term) smt.Result {
 		it.S.Pop()
 	}
 	return r
+}
+
+// quickUnsat reports whether c contradicts the conjuncts of the path condition whose atoms are all atoms of c
+// (a tiny query; unsat of a subset implies unsat of the whole).
+func (it *Interp) quickUnsat(c *smt.Term) bool {
+	p := it.P
+	if it.Cfg.NoSlice {
+		return false
+	}
+	mine := map[int]bool{}
+	for _, a := range it.atomsOf(c) {
+		mine[a] = true
+	}
+	if len(mine) == 0 || len(mine) > 6 {
+		return false
+	}
+	var sub []*smt.Term
+	for _, k := range p.PC {
+		at := it.atomsOf(k)
+		if len(at) == 0 || len(at) > len(mine) {
+			continue
+		}
+		ok := true
+		for _, a := range at {
+			if !mine[a] {
+				ok = false
+				break
+			}
+		}
+		if ok {
+			sub = append(sub, k)
+		}
+	}
+	if len(sub) == 0 || len(sub) == len(p.PC) {
+		return false
+	}
+	r, err := it.S.Check(append(sub, c), 2000)
+	if err != nil {
+		return false
+	}
+	if r == smt.Sat {
+		it.S.Pop()
+	}
+	return r == smt.Unsat
 }
 
 // Branch decides a symbolic condition, forking when both sides are feasible.
@@ -161,6 +319,17 @@ func (it *Interp) Branch(c *smt.Term) bool {
 		return d.taken
 	}
 	it.jr.Branches++
+	// cheap pass: constraints that only talk about the atoms of the condition (ranges, earlier decisions)
+	if it.quickUnsat(c) {
+		d := dec{taken: false, forced: true}
+		it.take(c, d)
+		return false
+	}
+	if it.quickUnsat(it.C.Not(c)) {
+		d := dec{taken: true, forced: true}
+		it.take(c, d)
+		return true
+	}
 	rt := it.feasible(c)
 	var d dec
 	switch rt {
@@ -336,8 +505,14 @@ func (it *Interp) Assert(label string, c *smt.Term) {
 		it.Assume(c)
 		return
 	}
-	as := append(append([]*smt.Term{}, it.P.PC...), neg)
+	as := append(it.slice(neg), neg)
 	r, err := it.S.Check(as, it.Cfg.AssertTimeout)
+	if err == nil && r == smt.Sat && len(as) < len(it.P.PC)+1 {
+		// the slice admits a counterexample: decide on the full path condition
+		it.S.Pop()
+		as = append(append([]*smt.Term{}, it.P.PC...), neg)
+		r, err = it.S.Check(as, it.Cfg.AssertTimeout)
+	}
 	if err == nil && r == smt.Sat && len(it.P.Exact) > 0 {
 		// the abstraction admits a counterexample: decide it with the exact definitions
 		it.S.Pop()
@@ -511,7 +686,10 @@ func (jr *JobResult) merge(o *JobResult) {
 	}
 }
 
+var progressPaths, progressQueries int64
+
 func (it *Interp) runPath(j job, prefix []dec) {
+	atomic.AddInt64(&progressPaths, 1)
 	it.P = &Path{Prefix: prefix, pcSet: map[int]bool{}}
 	it.M = newModelState(it)
 	it.stack = it.stack[:0]
@@ -519,6 +697,7 @@ func (it *Interp) runPath(j job, prefix []dec) {
 	it.deferRun = nil
 	it.jr.Paths++
 	defer func() {
+		it.restoreFrozen()
 		if it.steps > it.jr.MaxSteps {
 			it.jr.MaxSteps = it.steps
 		}
